@@ -220,7 +220,7 @@ def names_value(rng, ob, items, allow_comma=True):
     if f == 'bare':
         return items[0], [21, sarg(items[0], ob)], f + ('-str' if isinstance(items[0], str) else '-nonstr')
     if f == 'comma':
-        sep = rng.choice([',', ', ', ' ,', ' , ', ',\t'])
+        sep = rng.choice([',', ', ', ' ,', ' , ', ',\t', ',\x0b', '\x1f,\n'])
         text = sep.join(items)
         if rng.random() < 0.15:
             text = rng.choice([' ', '\n']) + text + rng.choice([' ', '\t'])
@@ -286,11 +286,56 @@ def gen_xindex(rng, n):
     return n - 1, [1, n - 1], 'maxint'
 
 
-def gen_xcriterion(rng, ob, key, spw, sub):
+def gen_malformed(rng, ob, key, n):
+    """A criterion that makes its loop branch raise (the call fails part-way), or None if the key has no such form."""
+    if key in ('dumps', 'channels', 'corrprods'):
+        kind = rng.choice(['oob', 'oobneg', 'oobtuple', 'shortmask', 'longmask', 'step0', 'oobarray'])
+        if kind == 'oob':
+            l = [0, n] if rng.random() < 0.5 else [n + rng.randint(0, 3)]
+            return l, xcore([0, [3, l]]), 'bad-index-list'
+        if kind == 'oobneg':
+            return -n - 1, xcore([0, [1, -n - 1]]), 'bad-negative-int'
+        if kind == 'oobtuple':
+            return (0, -n - 1), xcore([0, [3, [0, -n - 1]]]), 'bad-index-tuple'
+        if kind == 'oobarray':
+            return np.array([n]), xcore([0, [3, [n]]]), 'bad-index-array'
+        if kind == 'shortmask' and n >= 3:
+            m = [True] * (n - 1)
+            return m, xcore([0, [0, [1] * (n - 1)]]), 'bad-mask-short'
+        if kind == 'longmask' and n >= 1:
+            m = np.ones(n + 1, dtype=bool)
+            return m, xcore([0, [0, [1] * (n + 1)]]), 'bad-mask-long'
+        return slice(None, None, 0), xcore([0, [2, [], [], [0]]]), 'bad-slice-step0'
+    if key in ('scans', 'compscans'):
+        items = rng.choice([['track', ''], ['', 'track'], ['~', ''], [0, ''], [' ']])
+        form = rng.choice(['list', 'tuple', 'comma'])
+        if form == 'comma' and all(isinstance(x, str) for x in items):
+            text = ','.join(items)
+            if text:
+                return text, [21, [0, codes(text)]], 'bad-empty-field'
+        seq = list(items) if form != 'tuple' else tuple(items)
+        return seq, [22, [sarg(x, ob) for x in items]], 'bad-empty-item'
+    if key == 'ants':
+        items = rng.choice([['~m000', ''], ['', 'm000'], ['~m000', 3], [3], ['~m001', '~m000', '']])
+        seq = list(items) if rng.random() < 0.6 else tuple(items)
+        return seq, [22, [sarg(x, ob) for x in items]], 'bad-item'
+    if key == 'pol':
+        items = rng.choice([['h', 3], [7], ['HH', 1]])
+        return list(items), [22, [sarg(x, ob) for x in items]], 'bad-nonstring'
+    return None
+
+
+def gen_xcriterion(rng, ob, key, spw, sub, mal=0.0):
     """spw / sub: the window and subarray under which the criterion will be evaluated (those of this call)."""
     s = ob.spec
     spw_ok = 0 <= spw < ob.nspw()
     sub_ok = 0 <= sub < ob.nsub()
+    if mal and rng.random() < mal:
+        n = {'dumps': ob.T, 'channels': len(ob.fz[spw]) if spw_ok else 4,
+             'corrprods': len(ob.cps[sub]) if sub_ok else 3}.get(key, 0)
+        r = gen_malformed(rng, ob, key, n)
+        if r is not None:
+            return r
     if key == 'dumps':
         v, w, f = gen_xindex(rng, ob.T)
         return v, xcore([0, w]), f
@@ -401,8 +446,9 @@ def gen_window(rng, n, cur):
     return (z if form == 'int' else np.int64(z)), xcore([11, int(z)]), form
 
 
-def gen_xcall(rng, ob, cur):
-    """cur = [spw, subarray] currently selected on the implementation side (updated by the caller)."""
+def gen_xcall(rng, ob, cur, mal=0.0):
+    """cur = [spw, subarray] currently selected on the implementation side (updated by the caller);
+    mal = probability that a criterion is replaced by a malformed one (malformed stream)."""
     n = rng.choice([0, 1, 1, 1, 2, 2, 2, 3, 3])
     keys = []
     for _ in range(n):
@@ -430,9 +476,9 @@ def gen_xcall(rng, ob, cur):
             vals[k] = gen_window(rng, ob.nsub(), cur[1])
             sub = int(vals[k][0])
     for k in keys:
-        v, w, f = vals[k] if k in vals else gen_xcriterion(rng, ob, k, spw, sub)
+        v, w, f = vals[k] if k in vals else gen_xcriterion(rng, ob, k, spw, sub, mal)
         call.append((k, v, w, f))
-    reset = rng.choice(base.RESETS)
+    reset = rng.choice(base.RESETS + ['tfb', 'X', 'TT', 'auto'])
     if reset is not None:
         call.insert(rng.randint(0, len(call)), ('reset', reset, xcore([10, codes(reset)]), 'reset'))
     return call
@@ -670,8 +716,10 @@ def xrandom_histories(oseed, per_obs, small=False):
     for _ in range(per_obs):
         cur = [0, 0]
         h = []
+        # one history in four is a malformed stream: every criterion has a 30% chance of being one that raises
+        mal = 0.3 if orng.random() < 0.25 else 0.0
         for _ in range(orng.randint(1, 9)):
-            c = gen_xcall(orng, ob, cur)
+            c = gen_xcall(orng, ob, cur, mal)
             h.append(c)
             cur = track(cur, c, ob)
         histories.append(h)
